@@ -16,8 +16,8 @@
 (*   runres(code) shutres(code) - what edzed.run() / a later shutdown() did (-1: returned)*)
 (*   after(ready, restart, addblock, tasks, timers)                                       *)
 EXTENDS TraceLib
-VARIABLES simset, err, supf, started, failedstart, stopcnt, sast, sabeg, stopt0, phase, doomed, now, tid, l
-vars == <<simset, err, supf, started, failedstart, stopcnt, sast, sabeg, stopt0, phase, doomed, now>>
+VARIABLES simset, err, supf, started, failedstart, stopcnt, sast, sabeg, stopt0, phase, doomed, sdrun, sdwant, now, tid, l
+vars == <<simset, err, supf, started, failedstart, stopcnt, sast, sabeg, stopt0, phase, doomed, sdrun, sdwant, now>>
 H(t) == Traces[t].hdr
 Ev(t) == Traces[t].ev
 NONE == 0 - 1
@@ -27,39 +27,45 @@ TraceInit == /\ tid \in 1..NTraces /\ l = 1
              /\ stopcnt = [b \in DOMAIN Traces[tid].hdr.blocks |-> 0]
              /\ sast = [b \in DOMAIN Traces[tid].hdr.blocks |-> "no"]
              /\ sabeg = [b \in DOMAIN Traces[tid].hdr.blocks |-> 0]
-             /\ stopt0 = NONE /\ phase = "pre" /\ doomed = FALSE /\ now = 0
+             /\ stopt0 = NONE /\ phase = "pre" /\ doomed = FALSE /\ sdrun = {} /\ sdwant = {} /\ now = 0
 First(e) == IF err = NONE THEN e ELSE err
 Ready == simset /\ err = NONE /\ phase # "finished"
 ExtPrefix == <<95, 101, 120, 116, 95>>                      \* "_ext_"
 HasPrefix(s) == Len(s) >= 5 /\ SubSeq(s, 1, 5) = ExtPrefix
 ExpectedSource(src) == IF src = <<0 - 1>> THEN ExtPrefix              \* no source given
                        ELSE IF HasPrefix(src) THEN src ELSE ExtPrefix \o src
-Same == UNCHANGED <<simset, err, supf, started, failedstart, stopcnt, sast, sabeg, stopt0, phase, doomed>>
+Same == UNCHANGED <<simset, err, supf, started, failedstart, stopcnt, sast, sabeg, stopt0, phase, doomed, sdrun, sdwant>>
 
 Begin(e) == /\ phase = "pre" /\ ~simset /\ simset' = TRUE /\ phase' = "live"
-            /\ UNCHANGED <<err, supf, started, failedstart, stopcnt, sast, sabeg, stopt0, doomed>>
+            /\ UNCHANGED <<err, supf, started, failedstart, stopcnt, sast, sabeg, stopt0, doomed, sdrun, sdwant>>
 Start(e) == /\ phase = "live" /\ e.b \notin started \cup failedstart
             /\ IF e.ok THEN started' = started \cup {e.b} /\ UNCHANGED failedstart
                        ELSE failedstart' = failedstart \cup {e.b} /\ UNCHANGED started
-            /\ UNCHANGED <<simset, err, supf, stopcnt, sast, sabeg, stopt0, phase, doomed>>
+            /\ UNCHANGED <<simset, err, supf, stopcnt, sast, sabeg, stopt0, phase, doomed, sdrun, sdwant>>
 (* the first error delivered wins; a fatal fault is an error delivered to the simulator *)
 (* doom: a synchronous initialisation routine failed while an external event was being   *)
 (* delivered (early initialisation): the caller got the exception, the block can no      *)
 (* longer be initialised and the start-up must fail - with whatever error                *)
 Fault(e) == /\ err' = (IF e.fatal /\ simset /\ phase = "live" THEN First(e.e) ELSE err)
             /\ doomed' = (doomed \/ e.doom)
-            /\ UNCHANGED <<simset, supf, started, failedstart, stopcnt, sast, sabeg, stopt0, phase>>
+            /\ UNCHANGED <<simset, supf, started, failedstart, stopcnt, sast, sabeg, stopt0, phase, sdrun, sdwant>>
 (* (in a doomed run the clean-up may already be in progress because of an error that no  *)
 (* line announced: an abort() arriving then comes too late)                              *)
 Abort(e) == /\ err' = (IF phase = "finished" \/ (doomed /\ stopt0 # NONE) THEN err ELSE First(e.e))
-            /\ UNCHANGED <<simset, supf, started, failedstart, stopcnt, sast, sabeg, stopt0, phase, doomed>>
+            /\ UNCHANGED <<simset, supf, started, failedstart, stopcnt, sast, sabeg, stopt0, phase, doomed, sdrun, sdwant>>
 SupFail(e) == /\ supf' = (IF supf = NONE THEN e.e ELSE supf)
-              /\ UNCHANGED <<simset, err, started, failedstart, stopcnt, sast, sabeg, stopt0, phase, doomed>>
+              /\ UNCHANGED <<simset, err, started, failedstart, stopcnt, sast, sabeg, stopt0, phase, doomed, sdrun, sdwant>>
 (* external events enter only a running circuit and are marked as external *)
 Ext(e) == /\ IF Ready THEN /\ e.outcome = "delivered" /\ e.deliv
                            /\ e.got = ExpectedSource(e.src) /\ e.valok /\ e.restok
                       ELSE e.outcome = "invalid" /\ ~e.deliv
           /\ Same
+(* an output block ran its function / coroutine; sd = for its stop_data: that is the     *)
+(* block's last action, delivered once, at stop                                          *)
+OutRun(e) == /\ e.b \notin sdrun
+             /\ (e.sd => (H(tid).blocks[e.b].sd /\ stopcnt[e.b] = 1))
+             /\ sdrun' = (IF e.sd THEN sdrun \cup {e.b} ELSE sdrun)
+             /\ UNCHANGED <<simset, err, supf, started, failedstart, stopcnt, sast, sabeg, stopt0, phase, doomed, sdwant>>
 (* user-defined blocks cannot have names beginning with an underscore, and no block name *)
 (* (= the 'source' of its internal events) begins with the external prefix               *)
 MkName(e) == /\ (Len(e.name) >= 1 /\ e.name[1] = 95) => e.outcome = "refused"
@@ -74,23 +80,25 @@ Stop(e) == /\ phase = "live" /\ (err # NONE \/ doomed)                      \* c
                  \A a \in started : H(tid).blocks[a].async =>
                      (stopcnt[a] = 1 /\ (sast[a] = "done" \/ (sast[a] = "running" /\ e.t >= sabeg[a] + H(tid).blocks[a].tmo))))
            /\ stopcnt' = [stopcnt EXCEPT ![e.b] = 1]
+           /\ sdwant' = (IF H(tid).blocks[e.b].sd /\ e.inited THEN sdwant \cup {e.b} ELSE sdwant)   \* an initialised output block
            /\ stopt0' = (IF stopt0 = NONE THEN e.t ELSE stopt0)
-           /\ UNCHANGED <<simset, err, supf, started, failedstart, sast, sabeg, phase, doomed>>
+           /\ UNCHANGED <<simset, err, supf, started, failedstart, sast, sabeg, phase, doomed, sdrun>>
 MaxTmo == LET S == {H(tid).blocks[b].tmo : b \in B} IN IF S = {} THEN 0 ELSE CHOOSE m \in S : \A x \in S : x <= m
 SaBegin(e) == /\ phase = "live" /\ H(tid).blocks[e.b].async /\ e.b \in started /\ sast[e.b] = "no"
               /\ \A a \in started : H(tid).blocks[a].async => stopcnt[a] = 1     \* after stop() of all of them
               /\ sast' = [sast EXCEPT ![e.b] = "running"] /\ sabeg' = [sabeg EXCEPT ![e.b] = e.t]
-              /\ UNCHANGED <<simset, err, supf, started, failedstart, stopcnt, stopt0, phase, doomed>>
+              /\ UNCHANGED <<simset, err, supf, started, failedstart, stopcnt, stopt0, phase, doomed, sdrun, sdwant>>
 SaEnd(e) == /\ sast[e.b] = "running" /\ sast' = [sast EXCEPT ![e.b] = "done"]
             /\ e.t <= sabeg[e.b] + MaxTmo                                        \* bounded by the (largest) stop_timeout
-            /\ UNCHANGED <<simset, err, supf, started, failedstart, stopcnt, sabeg, stopt0, phase, doomed>>
+            /\ UNCHANGED <<simset, err, supf, started, failedstart, stopcnt, sabeg, stopt0, phase, doomed, sdrun, sdwant>>
 Finished(e) == /\ phase = "live" /\ phase' = "finished"
                /\ IF err = NONE THEN doomed /\ e.exc > 0 /\ e.errc = e.exc /\ err' = e.exc
                   ELSE e.exc = err /\ e.errc = err /\ UNCHANGED err  \* the first error is the one reported
                /\ \A b \in B : stopcnt[b] = (IF b \in started THEN 1 ELSE 0)
+               /\ \A b \in sdwant : sast[b] \in {"no", "done"} => b \in sdrun     \* stop_data was delivered
                /\ \A b \in B : sast[b] # "running" \/ e.t >= sabeg[b] + H(tid).blocks[b].tmo
                /\ (stopt0 # NONE => e.t <= stopt0 + MaxTmo)
-               /\ UNCHANGED <<simset, supf, started, failedstart, stopcnt, sast, sabeg, stopt0, doomed>>
+               /\ UNCHANGED <<simset, supf, started, failedstart, stopcnt, sast, sabeg, stopt0, doomed, sdrun, sdwant>>
 RunRes(e) == /\ phase = "finished"
              /\ e.code = (IF err # 0 THEN err ELSE IF supf # NONE THEN supf ELSE NONE)
              /\ Same
@@ -112,6 +120,7 @@ Step == /\ l <= Len(Ev(tid))
                 \/ e.ev = "extbad" /\ ExtBad(e)
                 \/ e.ev = "mkname" /\ MkName(e)
                 \/ e.ev = "blockname" /\ BlockName(e)
+                \/ e.ev = "outrun" /\ OutRun(e)
                 \/ e.ev = "stop" /\ Stop(e)
                 \/ e.ev = "sa_begin" /\ SaBegin(e)
                 \/ e.ev = "sa_end" /\ SaEnd(e)
